@@ -184,8 +184,8 @@ def main() -> int:
     from dsim.driver import load_findings
 
     check = load(cfg["check"])
-    if hasattr(check, "preload"):
-        check.preload()
+    if hasattr(check, "warm_up"):
+        check.warm_up()
     tier = cfg.get("tier", "quick")
     open_findings = [f for f in load_findings() if f["property"] == cfg["check"] and f.get("status") == "open"]
     known_seen: dict = {}
